@@ -80,7 +80,7 @@ theorem quiet_ignored_under_json_except_replace :
 /-! ### the document is a member of the declared type -/
 
 /-- The document of every command is a member of every type a wrapper declares for it, in every scenario, except:
-    `history`, `status`. -/
+    `history`, `status` (and, see `C19_witness_non_utf8_plan_null`, a plan with a path that is not valid UTF-8). -/
 theorem conforms_bindings_partial :
     (Cmd.all.all fun c => (docScenarios c).all fun s => shapeMismatch c s.1 s.2 || conformsCmd c s.1 s.2) = true :=
   Part.conforms_bindings_partial
@@ -103,12 +103,27 @@ theorem search_mode_members_optional :
     ∧ ((docScenarios .search).all fun s => conformsCmd .search s.1 s.2) = true :=
   Part.search_mode_members_optional
 
+/-- WITNESS non_utf8_plan_null: `PlanResult` / `RenameResult::format_json` render `plan` through
+    `serde_json::to_value(&self.plan).unwrap_or(Value::Null)`; when a planned path is not valid UTF-8 the member is `null`
+    (status 0, `"success": true`), which is not the `Plan` that cliService.search / createPlan declare (they throw
+    "missing plan data"); cliService.rename only reads `plan_id` and is unaffected.  `conforms_bindings_partial` above
+    is about the scenarios in which every path is valid UTF-8 (`serFails = false`). -/
+theorem C19_witness_non_utf8_plan_null :
+    conformsCmdIn .search { docCtxOf .search false false with serFails := true } = false
+    ∧ conformsCmdIn .plan { docCtxOf .plan false false with serFails := true } = false
+    ∧ conformsCmdIn .rename { docCtxOf .rename false false with serFails := true } = true
+    ∧ conformsGen { replaceEmpty := false, noMatches := false, noRenames := false, serFails := true }
+        (.ref n!"Plan") (.fallible (.ref n!"Plan")) = false
+    ∧ conformsGen { replaceEmpty := false, noMatches := false, noRenames := false }
+        (.ref n!"Plan") (.fallible (.ref n!"Plan")) = true :=
+  Part.C19_witness_non_utf8_plan_null
+
 /-- WITNESS history_shape_mismatch: `history --output json` prints `{"entries":[HistoryItem…]}`; `cliService.history`
     returns it as `HistoryEntry[]` (an object is not an array; a `HistoryItem` has no `created_at`). -/
 theorem C19_witness_history_shape_mismatch :
     conformsCmd .history false false = false
     ∧ (expectedTypes .history).map (·.1) = [n!"vscode.history"]
-    ∧ conformsGen ⟨false, false, false⟩ (.arr (.ref n!"HistoryEntry")) (.arr (.ref n!"HistoryItem")) = false :=
+    ∧ conformsGen { replaceEmpty := false, noMatches := false, noRenames := false } (.arr (.ref n!"HistoryEntry")) (.arr (.ref n!"HistoryItem")) = false :=
   Part.C19_witness_history_shape_mismatch
 
 /-- WITNESS status_shape_mismatch: `status --output json` prints `{pending_plan, history_count, last_operation: string|null}`;
@@ -116,8 +131,8 @@ theorem C19_witness_history_shape_mismatch :
 theorem C19_witness_status_shape_mismatch :
     conformsCmd .status false false = false
     ∧ (expectedTypes .status).map (·.1) = [n!"vscode.status"]
-    ∧ conformsGen ⟨false, false, false⟩ (.ref n!"HistoryEntry") .str = false
-    ∧ conformsGen ⟨false, false, false⟩ (.ref n!"HistoryEntry") .null = false :=
+    ∧ conformsGen { replaceEmpty := false, noMatches := false, noRenames := false } (.ref n!"HistoryEntry") .str = false
+    ∧ conformsGen { replaceEmpty := false, noMatches := false, noRenames := false } (.ref n!"HistoryEntry") .null = false :=
   Part.C19_witness_status_shape_mismatch
 
 /-! ### status -/
